@@ -411,8 +411,14 @@ META = {
              "qbe.c EXPRCALL): if the C execution of entry(rho) returns v within fuel n and the 64 MiB IL stack has room for n+1 "
              "activations (64 bytes + at most 32 per variable each), the module of ALL emitted functions run from entry returns a "
              "representation of v - nested frames, recursion, the caller's memory untouched by the callee; tied to the compiler by "
-             "the same three comparisons on generated programs.  Outside F1/F2/programs (floats, "
-             "pointers other than the implicit one of a subscripted local array, array initialisers, nested subscripts/calls inside "
+             "the same three comparisons on generated programs.  READ-ONLY ARRAY PARAMETERS: functions of a program may declare "
+             "their first parameters as arrays `const T p[w]` (pointers), read them with `x = p[i];` and be called with LOCAL ARRAYS "
+             "of the caller as arguments (`[x =] f(a, b, args);`): the C semantics shows the callee copies of the caller's elements "
+             "(index outside the declared length or element without value = undefined), the IL passes the address in the array's "
+             "slot, spills it and loads through it from the CALLER's allocation - proved inside lower3_correct* (the entry function "
+             "itself has no array parameter: hypothesis hpw; the same hypothesis on lower2_correct*).  Outside F1/F2/programs (floats, "
+             "pointers other than the implicit one of a subscripted local array and these read-only array parameters, writes through "
+             "pointers, `&`/`*` as operators, pointer arithmetic, array initialisers, nested subscripts/calls inside "
              "an index or an argument, side effects inside expressions, aggregates, bit-fields, goto, indirect and variadic calls, "
              "non-scalar initialisers, "
              "VLAs, unreachable code after a jump) "
